@@ -461,6 +461,31 @@ func runC09(c *fw.Ctx) {
 		})
 	}
 
+	// ---------- ONE index object (full length, with {0,0} "whole dimension" entries) used for calls on tensors of different sizes ----------
+	c.Case(func(k *fw.K) {
+		for _, sh := range [][2][]int{{{4, 3}, {2, 3}}, {{2, 3}, {4, 3}}, {{1, 3}, {3, 3}}, {{2, 2, 3}, {3, 2, 3}}, {{5}, {2}}} {
+			for _, first := range [][]ref.Range{nil} {
+				_ = first
+				rank := len(sh[0])
+				idx := make([]tensor.Range, rank) // {0,0} everywhere ...
+				ridx := make([]ref.Range, rank)
+				idx[rank-1], ridx[rank-1] = tensor.Range{From: 0, To: 1}, ref.Range{From: 0, To: 1} // ... except a window in the last dimension
+				for n, s := range sh {
+					x := Shuffled(k.Rng, Unique(k.Rng, s, 0.2, 2))
+					want, werr := ref.Apply(ref.Instr{Op: "slice", Index: ridx}, []*ref.T{x})
+					var wshape []int
+					if werr == nil {
+						wshape = want.Shape
+					}
+					t := rt.MustLeaf(x, n == 0)
+					chk(k, "Slice", "index-object-reused", fmt.Sprintf("recv %v, the same []Range object as in the previous call: %v", s, ridx), wantFrom(wshape, werr), func() (tensor.Tensor, error) { return t.Slice(idx) })
+					src := ref.Full(wshape, 7)
+					chk(k, "Patch", "index-object-reused", fmt.Sprintf("recv %v, source %v, the same []Range object: %v", s, wshape, ridx), okShape(s), func() (tensor.Tensor, error) { return t.Patch(idx, rt.MustLeaf(src, false)) })
+				}
+			}
+		}
+	})
+
 	// ---------- BackPropagate called again over a graph that was already back-propagated: any outcome but a panic ----------
 	for _, s := range [][]int{{}, {3}, {2, 3}, {2, 1, 2}, {3, 3}} {
 		s := s
